@@ -123,9 +123,9 @@ func corpus() []Spec {
 		Op{K: "relayer", Addr: relayerAddr(2), List: []string{"abc+"}, List2: []string{""}},
 		Op{K: "rv_params", B: true, List: []string{"atele", "5", "stake", "0"}}, Op{K: "agg_params", N: 1, B: false})
 	// registry content: module-owned and external pairs, several denominations, a disabled pair, a replaced contract
-	add("registry", Op{K: "agg_regcoin", Name: "ucoin"}, Op{K: "agg_deploy", N: 1}, Op{K: "agg_regerc20", N: 0}, Op{K: "agg_addcoin", Name: "ibc/ABCDEF", N: 0},
-		Op{K: "agg_addcoin", Name: "second-denom", N: 1}, Op{K: "agg_toggle", N: 0}, Op{K: "agg_deploy", N: 1}, Op{K: "agg_update", N: 1, Rev: "1"},
-		Op{K: "agg_regcoin", Name: "a/b-c"}, Op{K: "agg_deploy", N: 2}, Op{K: "agg_regerc20", N: 2})
+	add("registry", Op{K: "agg_regcoin", Name: "ucoin"}, Op{K: "agg_deploy", N: 1}, Op{K: "agg_regerc20", N: 0}, Op{K: "agg_addcoin", Name: "ibc/" + strings.Repeat("AB", 32), N: 0},
+		Op{K: "agg_addcoin", Name: "second-denom", N: 1}, Op{K: "agg_toggle", N: 0}, Op{K: "agg_deploy", N: 1}, Op{K: "agg_update", N: 0, Rev: "1", B: true},
+		Op{K: "agg_regcoin", Name: "Zed9-coin"}, Op{K: "agg_deploy", N: 2}, Op{K: "agg_regerc20", N: 2})
 
 	// genesis inputs (aggregate): valid, and the shapes Validate must reject
 	gadd := func(tag string, pairs ...PairIn) { out = append(out, Spec{Kind: "genesis", Tag: tag, Gen: &GenIn{Pairs: pairs, AggParams: [2]bool{true, true}}}) }
@@ -270,15 +270,16 @@ func (g *gen) step() {
 	case 14:
 		denoms := []string{"atele", "stake", "ufoo", "a/b-c", "Zed9"}
 		var l []string
+		first := r.Intn(5)
 		for i, n := 0, 1+r.Intn(3); i < n; i++ {
-			l = append(l, denoms[(r.Intn(5)+i)%5], strconv.Itoa(r.Intn(1000)))
+			l = append(l, denoms[(first+i)%5], strconv.Itoa(r.Intn(1000)))
 		}
 		g.add(Op{K: "rv_params", B: r.Bool(), List: l})
 	case 15:
 		g.add(Op{K: "agg_params", N: r.Intn(2), B: r.Bool()})
 	case 16:
 		g.coins++
-		g.add(Op{K: "agg_regcoin", Name: []string{"ucoin", "ibc/ABC", "a/b-c", "Zed9x"}[r.Intn(4)] + strconv.Itoa(g.coins)})
+		g.add(Op{K: "agg_regcoin", Name: []string{"ucoin", "ibc/" + strings.Repeat("0", 62) + "A", "ab-c", "Zed9x"}[r.Intn(4)] + strconv.Itoa(g.coins%10)})
 		g.pairs++
 	case 17:
 		g.deploys++
